@@ -23,3 +23,58 @@ package core
 //@   requires b != nil && wfBlob(b)
 //@   ensures whole: result == b.Data
 //@   ensures wf: wfOffsets(b.Indexes.Receipts, result)
+
+// ---- aggregated bloom filter: candidate blocks for a set of alternative keys -------------------
+// bitset.BitSet is a dependency: an opaque value with an abstract view bit(b, i) / blen(b);
+// the assumed contracts below are its documented behaviour.
+//@ opaque type github.com/bits-and-blooms/bitset.BitSet
+//@ ghost func bit(b bitset.BitSet, i mathint) bool
+//@ ghost func blen(b bitset.BitSet) mathint
+//@ ghost func locs(data []byte) []uint64
+//@ extern func github.com/bits-and-blooms/bitset.New
+//@   ensures result != nil && fresh(result) && blen(*result) == length && (forall i mathint :: !bit(*result, i))
+//@ extern func github.com/bits-and-blooms/bitset.(*BitSet).Len
+//@   requires b != nil
+//@   ensures result == blen(*b)
+//@ extern func github.com/bits-and-blooms/bitset.(*BitSet).SetAll
+//@   requires b != nil
+//@   modifies *b
+//@   ensures blen(*b) == old(blen(*b)) && (forall i mathint :: 0 <= i && i < blen(*b) ==> bit(*b, i))
+//@ extern func github.com/bits-and-blooms/bitset.(*BitSet).ClearAll
+//@   requires b != nil
+//@   modifies *b
+//@   ensures blen(*b) == old(blen(*b)) && (forall i mathint :: !bit(*b, i))
+//@ extern func github.com/bits-and-blooms/bitset.(*BitSet).InPlaceIntersection
+//@   requires b != nil && compare != nil
+//@   modifies *b
+//@   ensures blen(*b) == old(blen(*b)) && (forall i mathint :: bit(*b, i) <==> (old(bit(*b, i)) && bit(*compare, i)))
+//@ extern func github.com/bits-and-blooms/bitset.(*BitSet).InPlaceUnion
+//@   requires b != nil && compare != nil
+//@   modifies *b
+//@   ensures blen(*b) == old(blen(*b)) && (forall i mathint :: bit(*b, i) <==> (old(bit(*b, i)) || bit(*compare, i)))
+//@ extern func github.com/bits-and-blooms/bloom/v3.Locations
+//@   ensures result == locs(data)
+
+// Block i is a candidate for key k iff every bloom row selected by k has bit i set.
+//@ pure func keyRow(f *AggregatedBloomFilter, key []byte, i mathint) bool = forall j int :: 0 <= j && j < len(locs(key)) ==> bit(f.bitmap[locs(key)[j] % 8192], i)
+
+// The result is the UNION over the alternative keys (a block matching any alternative stays a
+// candidate); with no keys every block is a candidate.
+//@ func (*AggregatedBloomFilter).BlocksForKeysInto
+//@   props C09
+//@   arith int
+//@   requires f != nil && len(f.bitmap) == 8192
+//@   requires out != nil ==> (forall r int :: 0 <= r && r < 8192 ==> &f.bitmap[r] != out)
+//@   modifies *out
+//@   loop 1: invariant range: -1 <= rangeindex && rangeindex < len(keys)
+//@   loop 1: invariant union_only: forall i mathint :: 0 <= i && i < 8192 && bit(*out, i) ==> (exists kk int :: 0 <= kk && kk <= rangeindex && keyRow(f, keys[kk], i))
+//@   loop 1: invariant union_all: forall i mathint, kk int :: 0 <= i && i < 8192 && 0 <= kk && kk <= rangeindex && keyRow(f, keys[kk], i) ==> bit(*out, i)
+//@   loop 1: invariant lens: blen(*out) == 8192 && blen(*innerMatches) == 8192 && innerMatches != nil && innerMatches != out && fresh(innerMatches)
+//@   loop 2: invariant range: -1 <= rangeindex && rangeindex < len(rawIndices)
+//@   loop 2: invariant inter: forall i mathint :: 0 <= i && i < 8192 ==> (bit(*innerMatches, i) <==> (forall j int :: 0 <= j && j <= rangeindex ==> bit(f.bitmap[rawIndices[j] % 8192], i)))
+//@   loop 2: invariant lens: blen(*out) == 8192 && blen(*innerMatches) == 8192
+//@   loop 2: invariant outer_only: forall i mathint :: 0 <= i && i < 8192 && bit(*out, i) ==> (exists kk int :: 0 <= kk && kk < index && keyRow(f, keys[kk], i))
+//@   loop 2: invariant outer_all: forall i mathint, kk int :: 0 <= i && i < 8192 && 0 <= kk && kk < index && keyRow(f, keys[kk], i) ==> bit(*out, i)
+//@   callsite InPlaceUnion@*: inner_is_row: forall i mathint :: 0 <= i && i < 8192 ==> (bit(*compare, i) <==> keyRow(f, key, i))
+//@   ensures all_when_no_keys: result == nil && len(keys) == 0 ==> (forall i mathint :: 0 <= i && i < 8192 ==> bit(*out, i))
+//@   ensures union: result == nil && len(keys) > 0 ==> (forall i mathint :: 0 <= i && i < 8192 ==> (bit(*out, i) <==> (exists kk int :: 0 <= kk && kk < len(keys) && keyRow(f, keys[kk], i))))
